@@ -19,7 +19,8 @@ FLOORS = {"requests_honoured": {"quick": 3000, "thorough": 40000}, "cycles_compa
           "next_time_checks": {"quick": 4000, "thorough": 50000}, "requests_beyond_end": {"quick": 50, "thorough": 500},
           "nested_requests": {"quick": 200, "thorough": 2000}, "dynamic_child_runs_compared": {"quick": 1500, "thorough": 25000},
           "combiner_requests_honoured": {"quick": 2000, "thorough": 30000},
-          "map_child_start_requests_honoured": {"quick": 100, "thorough": 1500}}
+          "map_child_start_requests_honoured": {"quick": 100, "thorough": 1500},
+          "list_map_child_requests_honoured": {"quick": 300, "thorough": 5000}}
 BATCH = 25
 
 
@@ -41,6 +42,8 @@ def generate(rng, tier, seed):
         cases.append(gen_reduce_timers(rng, f"c02_{seed}_rd{k}"))
     for k in range(n // 8):
         cases.append(gen_map_start_timers(rng, f"c02_{seed}_ms{k}"))
+    for k in range(n // 8):
+        cases.append(gen_listmap_timers(rng, f"c02_{seed}_lm{k}"))
     return cases
 
 
@@ -95,6 +98,30 @@ def gen_map_start_timers(rng, name):
     c.graphs["main"] = [S("d", "csrc", shape="tsd", uid=1), S("m", "map", "d", fn="fn1:0"), S("", "cmirror", "m", uid=50)]
     c.meta["kind2"] = "reduce_timers"
     c.meta["family"] = "map_start_timers"
+    return c
+
+
+def gen_listmap_timers(rng, name):
+    """map_ over a DYNAMIC list whose function schedules itself: the map node owns ONE schedule slot for all its children, so an
+    evaluation made for one child (its own alarm, or a tick of its element) must leave the other children's pending alarms armed.
+    Elements are appended and rewritten at different times. Oracle: trace only, as for the reduction family."""
+    from .prog import Case, S
+    end = rng.choice([30, 45])
+    c = Case(name, 0, end)
+    n, hist = 0, {}
+    for t in sorted(rng.sample(range(1, end - 2), rng.choice([5, 8, 12]))):
+        ops = []
+        for _ in range(rng.choice([1, 1, 2])):
+            i = n if (n == 0 or (n < 5 and rng.random() < 0.45)) else rng.randrange(n)
+            n = max(n, i + 1)
+            ops.append(f"[{i}]={i * 1000 + t}")
+        hist[t] = ops
+    c.cscripts[1] = [f"{t}|" + ",".join(ops) for t, ops in sorted(hist.items())]
+    k1, k2 = rng.choice([2, 3, 5, 9]), rng.choice([1, 4, 7])
+    c.graphs["fn0"] = [S("t1", "delay", "p0", uid=101, k=k1), S("t2", "delay", "t1", uid=102, k=k2), S("w", "pass", "t2", uid=103), S("", "RET", "w")]
+    c.graphs["main"] = [S("d", "csrc", shape="dl", uid=1), S("m", "map", "d", fn="fn1:0"), S("", "cmirror", "m", uid=50)]
+    c.meta["kind2"] = "reduce_timers"
+    c.meta["family"] = "listmap_timers"
     return c
 
 
@@ -184,6 +211,8 @@ def check_reduce_timers(case, tr):
             continue
         honoured += 1
     res.counters = {"combiner_requests_honoured": honoured, "combiner_requests_retired": retired}
+    if case.meta.get("family") == "listmap_timers":
+        res.counters = {"list_map_child_requests_honoured": honoured}
     if case.meta.get("family") == "map_start_timers":
         res.counters = {"map_child_start_requests_honoured": honoured, "map_child_requests_retired": retired}
     res.nontrivial = honoured >= 4
